@@ -217,6 +217,11 @@ func (l *Loader) Load(mod string) (*Prog, error) {
 		return nil, fmt.Errorf("load %s: errors in hive.go packages: %s", mod, strings.Join(errs, "; "))
 	}
 	l.cache[mod] = p
+	for _, pk := range p.Pkgs {
+		if pk.TypesInfo != nil {
+			progOfInfo[pk.TypesInfo] = p
+		}
+	}
 	buildKeySubst(p)
 	return p, nil
 }
